@@ -333,6 +333,10 @@ func (h *History) query(sh *tsdrv.Shard, opi int, r *gen.Rand, files []tsdrv.Fil
 	if h.Fix != "" {
 		fx = h.Fix
 	}
+	forceHint := strings.HasPrefix(fx, "MULTIH:") // same with the exact-statistics hint (row path)
+	if forceHint {
+		fx = "MULTI:" + strings.TrimPrefix(fx, "MULTIH:")
+	}
 	if strings.HasPrefix(fx, "MULTI:") { // corpus: MULTI:fn:field,fn:field;lo;hi  (shortcut path)
 		parts := strings.Split(strings.TrimPrefix(fx, "MULTI:"), ";")
 		if len(parts) == 3 {
@@ -358,6 +362,9 @@ func (h *History) query(sh *tsdrv.Shard, opi int, r *gen.Rand, files []tsdrv.Fil
 	mode := r.Intn(8)
 	if fixed {
 		mode = 7
+		if forceHint {
+			mode = 0
+		}
 	}
 	switch mode {
 	case 0, 1:
